@@ -695,3 +695,36 @@ def gen_fanout_net(rnd, n_target_types=None):
     rnd.shuffle(edges)
     spec = {'ops': ops, 'node_types': node_types, 'edge_types': {}, 'circ': {'name': 'top', 'nodes': nodes, 'subs': {}, 'edges': edges}}
     return individualize(spec, rnd, params=rnd.choice(['different', 'equal']), vals=vals)
+
+
+def gen_ring_net(rnd, n=None):
+    """4-7 structurally identical nodes wired ONE-TO-ONE by a permutation without fixed points (a ring in scrambled order, or several
+    cycles): every node sends one edge and receives one.  In a vectorized build (and in every parameter sweep) these edges form one
+    group whose source / target index lists are permutations of 0..n-1.  Returns a spec."""
+    vals = Vals(rnd)
+    n = n or rnd.randint(4, 7)
+    ops = {'rop': {'eqs': [['de', 'x', ['add', ['add', ['neg', ['mul', ['var', 'a'], ['var', 'x']]], ['var', 'inp']],
+                                       ['mul', ['num', round(rnd.uniform(0.3, 1.2), 3)], ['call', 'tanh', ['mul', ['var', 'g'], ['var', 'x']]]]]]],
+                   'vars': {'x': ['out', vals.new()], 'a': ['const', vals.new()], 'g': ['const', vals.new()], 'inp': ['in', 0.0]}}}
+    labels = rnd.sample(['a', 'b', 'c', 'd', 'e', 'f', 'g', 'h'], n)
+    if rnd.random() < 0.5:
+        labels = sorted(labels)
+    for _ in range(200):
+        perm = list(range(n))
+        rnd.shuffle(perm)
+        if all(perm[i] != i for i in range(n)):
+            break
+    if rnd.random() < 0.5:
+        # ring through the nodes in scrambled order with the first and the last node keeping their places in the index lists
+        inner = list(range(1, n - 1))
+        rnd.shuffle(inner)
+        order = [0] + inner + [n - 1]
+        perm = [None] * n
+        for i in range(n):
+            perm[order[i]] = order[(i + 1) % n]
+    edges = [[f'{labels[i]}/rop/x', f'{labels[perm[i]]}/rop/inp', None, {'weight': vals.new()}] for i in range(n)]
+    if rnd.random() < 0.6:
+        rnd.shuffle(edges)
+    spec = {'ops': ops, 'node_types': {'rt': {'ops': ['rop'], 'over': {}}}, 'edge_types': {},
+            'circ': {'name': 'top', 'nodes': {lab: 'rt' for lab in labels}, 'subs': {}, 'edges': edges}}
+    return individualize(spec, rnd, params='different', vals=vals)
